@@ -68,6 +68,9 @@ def _common(draw, gaussian, ctx):
         "profile": draw(st.sampled_from(["cw", "pulse"])),
         # sampled_from (uniform) rather than integers() (biased towards small values)
         "angle": draw(st.sampled_from(range(0, 3600))) / 10.0,
+        # "any transverse polarization": the vector may have any length and be given for E or for H
+        "pol_len": draw(st.sampled_from([1.0, 1.0, 5.0, 0.3, 2.5])),
+        "pol_field": draw(st.sampled_from(["E", "E", "H"])),
         "cpw": draw(st.sampled_from(range(150, 301))) / 10.0,  # cells per wavelength in the medium
         "eps": eps,
         "mu": mu,
@@ -224,6 +227,7 @@ def measure(ctx, case, gaussian):
         prof = {"kind": "pulse", "width_factor": wf}
     src = {"type": "gaussian_plane" if gaussian else "uniform_plane", "name": "src", "wl_cells": wl_vac, "amp": 1.0,
            "profile": prof, "switch": {}, "axis": ax, "pos": spos, "direction": direction, "pol": pol,
+           "pol_len": case.get("pol_len", 1.0), "pol_field": case.get("pol_field", "E"),
            "lo": list(tlo), "hi": list(thi)}
     if gaussian:
         src["radius_cells"] = r_cells
